@@ -39,6 +39,9 @@ pub struct Case {
     /// seconds since the debt bank last accrued when the bankruptcy is handled (0 = up to date)
     #[serde(default)]
     pub stale_s: i64,
+    /// the bank holding the account's assets was switched to reduce-only by the admin
+    #[serde(default)]
+    pub assets_reduce_only: bool,
 }
 
 fn bank_spec_by(name: &str) -> BankSpec {
@@ -77,6 +80,10 @@ pub fn prepare(w: &World, s0: &Store, c: &Case) -> Store {
     if c.assets > 0 {
         let r = act::apply(w, &mut s, &Action::Deposit { u: 0, b: 1, amt: c.assets, up_to_limit: None });
         assert!(r.committed);
+    }
+    if c.assets_reduce_only {
+        let r = process_tx(&mut s, &Tx::one(ix::configure_bank(w.group, w.roles.admin, w.banks[1].key, marginfi_type_crate::types::BankConfigOpt { operational_state: Some(BankOperationalState::ReduceOnly), ..Default::default() }), &[w.roles.admin]));
+        assert!(r.ok());
     }
     let lsv = I80F48::from_bits(lsv_raw);
     let shares = I80F48::from_bits(debt_raw) / lsv;
@@ -280,7 +287,7 @@ pub fn cases(tier: Tier, bank: &str, dist: usize, deposits: u64) -> Vec<Case> {
                 }
                 for &lsv in &lsvs {
                     for (signer, perm) in signers.iter() {
-                        v.push(Case { bank: bank.into(), dist, ins, debt_raw: debt.to_string(), lsv_raw: lsv.to_string(), signer: signer.clone(), permissionless: *perm, target: 0, assets: 0, account_flags: 0, stale_s: 0 });
+                        v.push(Case { bank: bank.into(), dist, ins, debt_raw: debt.to_string(), lsv_raw: lsv.to_string(), signer: signer.clone(), permissionless: *perm, target: 0, assets: 0, account_flags: 0, stale_s: 0, assets_reduce_only: false });
                     }
                 }
             }
@@ -292,7 +299,7 @@ pub fn cases(tier: Tier, bank: &str, dist: usize, deposits: u64) -> Vec<Case> {
         for target in [0u8, 1, 2] {
             for flags in [0u64, ACCOUNT_IN_FLASHLOAN, ACCOUNT_IN_RECEIVERSHIP, ACCOUNT_DISABLED] {
                 for (signer, perm) in [(Signer::RiskAdmin, false), (Signer::Stranger, true), (Signer::Stranger, false)] {
-                    v.push(Case { bank: bank.into(), dist, ins: 1_000, debt_raw: debt.to_string(), lsv_raw: one.to_string(), signer, permissionless: perm, target, assets, account_flags: flags, stale_s: 0 });
+                    v.push(Case { bank: bank.into(), dist, ins: 1_000, debt_raw: debt.to_string(), lsv_raw: one.to_string(), signer, permissionless: perm, target, assets, account_flags: flags, stale_s: 0, assets_reduce_only: false });
                 }
             }
         }
@@ -304,15 +311,28 @@ pub fn cases(tier: Tier, bank: &str, dist: usize, deposits: u64) -> Vec<Case> {
                 for &lsv in &lsvs {
                     for (signer, perm) in [(Signer::RiskAdmin, false), (Signer::Stranger, true)] {
                         let debt = (ins as i128 + deposits as i128 * num / 4) * one + half;
-                        v.push(Case { bank: bank.into(), dist, ins, debt_raw: debt.to_string(), lsv_raw: lsv.to_string(), signer, permissionless: perm, target: 0, assets: 0, account_flags: 0, stale_s });
+                        v.push(Case { bank: bank.into(), dist, ins, debt_raw: debt.to_string(), lsv_raw: lsv.to_string(), signer, permissionless: perm, target: 0, assets: 0, account_flags: 0, stale_s, assets_reduce_only: false });
                     }
                 }
             }
         }
     }
+    // a solvent account whose collateral bank is reduce-only is still solvent
+    for assets in [90_000u64, 110_000, 5_000_000_000] {
+        for (signer, perm) in [(Signer::RiskAdmin, false), (Signer::Stranger, true)] {
+            v.push(Case { bank: bank.into(), dist, ins: 1_000, debt_raw: debt.to_string(), lsv_raw: one.to_string(), signer, permissionless: perm, target: 0, assets, account_flags: 0, stale_s: 0, assets_reduce_only: true });
+        }
+    }
+    // a cover large enough for a capped Token-2022 transfer fee to bind (insurance 1,000,000)
+    for b in [400_000i128, 999_999, 1_000_000, 1_000_001] {
+        for frac in [0i128, half] {
+            let d = b * one + frac;
+            v.push(Case { bank: bank.into(), dist, ins: 1_000_000, debt_raw: d.to_string(), lsv_raw: one.to_string(), signer: Signer::RiskAdmin, permissionless: false, target: 0, assets: 0, account_flags: 0, stale_s: 0, assets_reduce_only: false });
+        }
+    }
     // assets above liabilities but under ten cents: not bankrupt
     for debt_small in [one / 100, one * 20_000] {
-        v.push(Case { bank: bank.into(), dist, ins: 0, debt_raw: debt_small.to_string(), lsv_raw: one.to_string(), signer: Signer::RiskAdmin, permissionless: false, target: 0, assets: 50_000, account_flags: 0, stale_s: 0 });
+        v.push(Case { bank: bank.into(), dist, ins: 0, debt_raw: debt_small.to_string(), lsv_raw: one.to_string(), signer: Signer::RiskAdmin, permissionless: false, target: 0, assets: 50_000, account_flags: 0, stale_s: 0, assets_reduce_only: false });
     }
     v
 }
@@ -426,7 +446,7 @@ fn permanence(w: &World, killed: &Store, depth: usize, found: &mut Vec<Found>, s
 }
 
 pub fn run(tier: Tier) -> Outcome {
-    let banks: &[&str] = if tier == Tier::Quick { &["B6", "BF100"] } else { &["B6", "BF100", "BF1", "BT"] };
+    let banks: &[&str] = if tier == Tier::Quick { &["B6", "BF100", "BF1"] } else { &["B6", "BF100", "BF1", "BT"] };
     let mut o = Outcome { level: "exploration".into(), ..Default::default() };
     let mut classes: BTreeMap<String, u64> = BTreeMap::new();
     let mut evals = 0u64;
@@ -485,7 +505,7 @@ pub fn replay(v: &serde_json::Value) -> Vec<crate::mc::Violation> {
         // recreate a killed bank: debt far above deposits, no insurance
         let (w, s0) = base(bank, 0);
         let one = I80F48::ONE.to_bits();
-        let c = Case { bank: bank.into(), dist: 0, ins: 0, debt_raw: (50_000 * one).to_string(), lsv_raw: one.to_string(), signer: Signer::RiskAdmin, permissionless: false, target: 0, assets: 0, account_flags: 0, stale_s: 0 };
+        let c = Case { bank: bank.into(), dist: 0, ins: 0, debt_raw: (50_000 * one).to_string(), lsv_raw: one.to_string(), signer: Signer::RiskAdmin, permissionless: false, target: 0, assets: 0, account_flags: 0, stale_s: 0, assets_reduce_only: false };
         let j = judge(&w, &s0, &c);
         let Some(k) = j.killed_state else { return vec![] };
         let mut found = vec![];
